@@ -61,6 +61,11 @@ def gen_cases(tier, seed):
                     "cfg": {"out": r.choice(["all", "sinks", "node", "none"]), "p_scope": 0.6, "n_fnames": 3}})
     for i in range(3 if tier == "quick" else 12):
         out.append({"seed": env.seed_for(seed, ID, tier, "many_callables", i), "mode": "many_callables", "members": 1, "W": 2, "n": 30, "sched": "default"})
+    for i in range(n // 30):
+        s = env.seed_for(seed, ID, tier, "builtin_fail", i)
+        r = random.Random(env.seed_for(s, "descriptor"))
+        out.append({"seed": s, "mode": "builtin_fail", "members": 1, "W": r.choice([1, 2, 4]), "n": r.randint(2, 8), "sched": "default", "retry": r.choice([None, 1, 2, 3]),
+                    "max_errors": r.choice([0, None])})
     for i in range(n // 12):
         s = env.seed_for(seed, ID, tier, "faulty", i)
         r = random.Random(env.seed_for(s, "descriptor"))
@@ -126,6 +131,52 @@ def make_progress(desc, tmpdir=None):
         return recs, up.composite_progress(*members)
     # nested composite
     return recs, up.composite_progress(members[0], up.composite_progress(*members[1:]))
+
+
+def run_builtin_fail(desc):
+    """Calls whose function is implemented in C (no Python frame of their own: operator.truediv, int, len, operator.getitem) and fails on every
+    attempt, with and without retry: each is reported running and then failed exactly once."""
+    import operator
+
+    import uberjob
+
+    rng = random.Random(desc["seed"])
+    recorder = recobserver.RecObserver("rec")
+    plan = uberjob.Plan()
+    ok = plan.call(lambda: 1)
+    nodes = [ok]
+    nfail = 0
+    for i in range(desc["n"]):
+        kind = rng.choice(["truediv", "int", "len", "getitem", "fine"])
+        with plan.scope(rng.choice(["s", 2, ("t", 1)])):
+            if kind == "truediv":
+                nodes.append(plan.call(operator.truediv, ok, 0)); nfail += 1
+            elif kind == "int":
+                nodes.append(plan.call(int, "not a number")); nfail += 1
+            elif kind == "len":
+                nodes.append(plan.call(len, ok)); nfail += 1
+            elif kind == "getitem":
+                nodes.append(plan.call(operator.getitem, [1, 2], 7)); nfail += 1
+            else:
+                nodes.append(plan.call(operator.add, ok, 1))
+    exc = None
+    try:
+        uberjob.run(plan, output=nodes, progress=recorder.progress(), max_workers=desc["W"], retry=desc["retry"], max_errors=desc["max_errors"])
+    except BaseException as e:
+        exc = e
+    bad = recobserver.check_trace(recorder.trace, balanced=True, succeeded=exc is None)
+    if bad is None and nfail and not isinstance(exc, uberjob.CallError):
+        bad = f"{nfail} calls of C-implemented functions fail, run ended with {exc!r}"
+    if bad is None and desc["max_errors"] is None:
+        failed = sum(1 for t in recorder.trace if t[2] == "failed")
+        if failed != nfail:
+            bad = f"{nfail} failing calls (max_errors=None) but {failed} 'failed' notifications"
+    res = {"status": "ok", "counters": {"builtin_fail_runs": 1, "traces_checked": 1, "traces_with_failures": int(nfail > 0)}, "nontrivial": nfail > 0,
+           "sig": f"builtin_fail|{desc['seed'] % 100000}"}
+    if bad:
+        res.update(status="violation", detail=f"[failing C-implemented callables, retry={desc['retry']}] {bad}", mechanism="observer-trace",
+                   witness={"trace": [f"{k}:{s}:{sc}:{x}" for _, _, k, s, sc, x in recorder.trace[:80]]})
+    return res
 
 
 def run_many_callables(desc):
@@ -242,6 +293,8 @@ def run_case(desc):
         return run_dry(desc)
     if desc["mode"] == "many_callables":
         return run_many_callables(desc)
+    if desc["mode"] == "builtin_fail":
+        return run_builtin_fail(desc)
     recs, progress = make_progress(desc)
     extra_calls = []
     if desc["mode"] == "plain":
